@@ -8,5 +8,5 @@ python3 tools/translate.py
 cp /repo/Cargo.lock harness/Cargo.lock 2>/dev/null || true
 (cd harness && cargo build --offline --profile checked)
 (cd harness && CARGO_TARGET_DIR=target-nobmi2 RUSTFLAGS="-Ctarget-cpu=native -Ctarget-feature=-bmi2" cargo build --offline --profile checked)
-(cd /repo && cargo build --offline --release -p chess-bot --target-dir /verif/harness/target-bot)
+(cd /repo && cargo build --offline --release -p chess-bot -p chess-cli --target-dir /verif/harness/target-bot)
 echo "setup done"
